@@ -405,6 +405,22 @@ func (c *EvalCtx) expandPred(pd *PredDef, x *ast.CallExpr) Term {
 			args = append(args, t)
 			sorts = append(sorts, t.Sort)
 		}
+		// the footprint of the body: the heap components it reads become extra arguments,
+		// so that the atom denotes the predicate in exactly this state
+		saved := c.u.tracking
+		c.u.tracking = map[string]string{}
+		func() {
+			defer func() { recover() }()
+			n := *c
+			n.side = nil
+			n.expandPredBody(pd, x)
+		}()
+		fp := c.u.tracking
+		c.u.tracking = saved
+		for _, comp := range sortedKeys(fp) {
+			args = append(args, c.u.heapGet(c.st, comp, fp[comp]))
+			sorts = append(sorts, fp[comp])
+		}
 		n := "opq_" + pd.Name
 		c.u.pre.declFun(n, fmt.Sprintf("(declare-fun %s (%s) Bool)", n, strings.Join(sorts, " ")))
 		return app(n, SBool, args...)
@@ -422,6 +438,10 @@ func (c *EvalCtx) expandPred(pd *PredDef, x *ast.CallExpr) Term {
 		c.u.pre.declFun(n, fmt.Sprintf("(declare-fun %s (%s) Bool)", n, strings.Join(sorts, " ")))
 		return app(n, SBool, args...)
 	}
+	return c.expandPredBody(pd, x)
+}
+
+func (c *EvalCtx) expandPredBody(pd *PredDef, x *ast.CallExpr) Term {
 	n := c.child()
 	n.depth = c.depth + 1
 	n.side = nil
